@@ -120,4 +120,13 @@ def pedersenColumn (rg rh : List F) (g h : G) : List G :=
   List.zipWith (fun a b => a • g + b • h) rg rh
 
 end Group
+
+/-- the extractor of Pedersen binding: from two openings `(s, b)`, `(s', b')` of the same
+commitments that differ, `(sᵢ − s'ᵢ) / (b'ᵢ − bᵢ)` at the first coordinate where the blinding
+parts differ (this is `log_g h` when both openings verify) -/
+def pedersenExtract : List F → List F → List F → List F → Option F
+  | s :: ss, b :: bs, s' :: ss', b' :: bs' =>
+    if b = b' then pedersenExtract ss bs ss' bs' else some ((s - s') * (b' - b)⁻¹)
+  | _, _, _, _ => none
+
 end BronVerif.Vss
